@@ -96,6 +96,7 @@ def build(tier, seed):
         cases.append({'kind': 'msdat', 'reps': reps, 'first': 1, 'spacing': 1, 'dn': 3, 'L': 6})
         cases.append({'kind': 'gfms', 'reps': reps, 'first': 1, 'spacing': 1, 'prefix': 'rr'})
         cases.append({'kind': 'gfms', 'reps': reps, 'first': 1, 'spacing': 1, 'prefix': 'r2'})
+        cases.append({'kind': 'gfms', 'reps': reps, 'first': 2, 'spacing': 2, 'zthfl': 1})      # a file with the Wilson flow only
         cases.append({'kind': 'ms5', 'reps': reps})
         cases.append({'kind': 'ms5', 'reps': reps, 'prefix': 'corrD'})
         cases.append({'kind': 'ms5', 'reps': reps, 'prefix': 'xr4'})
@@ -483,9 +484,10 @@ def run_gfms(pe, acc, case, d):
     ncs, tmax, L, cmax = 4, 5, 4, 0.4
     nmeas = {1: 8, 2: 10, 10: 7}
     trajs, cfgs = {}, {}
+    zthfl = case.get('zthfl', 2)         # 2: Zeuthen and Wilson flow in the file, 1: only the Wilson flow
     for r in reps:
         trajs[r] = sq.traj_numbers(nmeas[r], first, spacing)
-        sq.write_gfms(os.path.join(d, '%sr%d.gfms.dat' % (prefix, r)), r, trajs[r], 2, ncs, tmax, L, cmax)
+        sq.write_gfms(os.path.join(d, '%sr%d.gfms.dat' % (prefix, r)), r, trajs[r], zthfl, ncs, tmax, L, cmax)
         c_ = [t // spacing for t in trajs[r]]
         if c_[0] > 1:
             c_ = [x - (c_[0] - 1) for x in c_]
@@ -502,9 +504,15 @@ def run_gfms(pe, acc, case, d):
                         with envpatch.listing_order(order):
                             q = pe.input.openQCD.read_qtop(d, prefix, c, version='sfqcd', Zeuthen_flow=zeuthen, **sel)
                     except Exception as e:
+                        if zthfl != 2 and zeuthen:
+                            acc.ok(('gfq-nz', tuple(reps), first, spacing, jc, bool(sel), tuple(order)), True, 'zeuthen-flow-not-in-file-refused')
+                            continue
                         acc.fail('gfms:qtop:raised', sub, 'read_qtop(sfqcd, c=%g, Zeuthen=%s, %s) raised %s: %s' % (c, zeuthen, sel, type(e).__name__, e))
                         continue
-                    iobs = 0 if zeuthen else 8
+                    if zthfl != 2 and zeuthen:
+                        acc.fail('gfms:qtop:zeuthen-not-in-file-accepted', sub, 'the file holds only the Wilson flow (header flag %d), Zeuthen_flow=True returned %r' % (zthfl, q))
+                        continue
+                    iobs = 0 if (zeuthen or zthfl != 2) else 8
                     exp_idl, exp_s = {}, {}
                     for ri, r in enumerate(reps):
                         a = cfgs[r].index(sel['r_start'][ri]) if sel else 0
@@ -519,6 +527,9 @@ def run_gfms(pe, acc, case, d):
                             c, jc, zeuthen, reps, first, spacing, sel, order, bad))
                     else:
                         acc.ok(('gfq', tuple(reps), first, spacing, zeuthen, jc, bool(sel), tuple(order)), True, 'gfms-qtop')
+    if zthfl != 2:
+        acc.sample({'kind': 'gfms', 'replicas': reps, 'first_trajectory': first, 'spacing': spacing, 'c_grid': ncs + 1, 'flows': 'Wilson only'})
+        return
     # gradient-flow coupling (c = 0.3 only): t^2 (5/3 plaq - 1/12 C2x1)(T/2) / norm, Zeuthen flow, observables 6 and 7
     try:
         g = pe.input.openQCD.read_gf_coupling(d, prefix, c=0.3)
